@@ -463,6 +463,38 @@ def check_connect(chk, tr, spec, status, value, envo):
                               + e[1])
                     polled = False
 
+    # ---- release follows the loss of the peer, not the terminate callback:
+    #      once the tag is gone / the reader has left (BrokenLinkError) / the
+    #      peer has ended the link, on-release comes without waiting for
+    #      terminate() and without further exchanges on the dead link
+    #      (llcp: run_as_target looks at terminate() once before it looks at
+    #      the failed exchange; deactivation may try a few more frames)
+    loss = dict(rdwr=("gone",), card=("link-broken",), llcp=("peer-ends",))
+    name_of = dict(rdwr="rdwr-presence-loop-continues-after-tag-gone",
+                   card="card-loop-continues-after-broken-link",
+                   llcp="llcp-run-loop-continues-after-link-loss")
+    for i, e in cbs:
+        if e[2] == "on-connect" and truthy(e[4]):
+            m = e[1]
+            lost = False
+            polls = xchgs = 0
+            for f in ev[i + 1:]:
+                if f[0] == "cb":
+                    break
+                if not lost:
+                    lost = f[0] == "env" and f[1] in loss[m]
+                elif f[0] == "poll":
+                    polls += 1
+                elif f[0] == "xchg":
+                    xchgs += 1
+            if lost:
+                sx.reach("connect:peer-lost:" + m)
+                chk.check(polls <= (1 if m == "llcp" else 0), name_of[m])
+                if m == "card":
+                    chk.check(xchgs == 0, name_of[m])
+                elif m == "llcp":
+                    chk.check(xchgs <= 12, name_of[m])
+
     # ---- return value
     # modes whose activation we could not see at all (default callbacks)
     blind = [m for m in ("rdwr", "llcp", "card") if active[m]
@@ -1281,6 +1313,16 @@ def connect_partitions(tier):
         modes=["rdwr"], env="t2-short", startup=dict(rdwr=["default"]),
         vals={"on-discover": ["True"], "on-connect": SMALL,
               "on-release": ["True"]}, use_terminate=False)))
+    # no terminate function: only the loss of the peer can end connect()
+    P.append(("card:no-terminate", dict(
+        modes=["card"], env="reader", startup=dict(card=["target"]),
+        vals={"on-discover": ["True"], "on-connect": SMALL,
+              "on-release": ["True"]}, use_terminate=False)))
+    for env, role in (("peer-init", "target"), ("peer-target", "initiator")):
+        P.append(("llcp:%s:no-terminate" % env, dict(
+            modes=["llcp"], env=env, role=role, startup=dict(llcp=["llc"]),
+            vals={"on-connect": SMALL, "on-release": ["True"]},
+            use_terminate=False)))
     P.append(("rdwr:io-in-callback", dict(
         modes=["rdwr"], env=t2, startup=dict(rdwr=["default"]),
         vals={"on-discover": ["True"], "on-connect": SMALL,
@@ -1476,6 +1518,7 @@ MUST_REACH = ["connect:false:IOError", "connect:false:KeyboardInterrupt",
               "connect:false:unsupported", "connect:iterations-counted",
               "connect:none:no-options", "connect:none:terminated",
               "connect:true:default-callbacks"] + \
+    ["connect:peer-lost:" + m for m in ("rdwr", "llcp", "card")] + \
     ["connect:%s:%s" % (w, m) for w in ("object", "released")
      for m in ("rdwr", "llcp", "card")] + \
     ["sense:0", "sense:1", "sense:2", "sense:3",
